@@ -473,8 +473,8 @@ func checkC12(e *Engine, r *Report) {
 			}
 		})
 	}
-	r.MinInstances("CPU pinning sinks", nCPU, 3)
-	r.MinInstances("memory pinning sinks", nMem, 7)
+	r.MinInstances("CPU pinning sinks", nCPU, 2)
+	r.MinInstances("memory pinning sinks", nMem, 4)
 
 	// --- TA: memory-preserved requests are unmovable / have no cold start ------------
 	c.checkTAPreservedUnmovable(r, taLoopSites, taReallocSites)
@@ -668,7 +668,7 @@ func (c *c12ctx) isGrantFromUpdateLoop(g ssa.Value) bool {
 // was refuted (demos/C12-ta-memory-preserve-refuted).
 func (c *c12ctx) checkTAPreservedUnmovable(r *Report, loopSites, reallocSites []string) {
 	e := c.e
-	r.MinInstances("TA zone-update loop sinks", len(loopSites), 3)
+	r.MinInstances("TA zone-update loop sinks", len(loopSites), 2)
 	getOffer := r.Anchor(pkgTA, "policy.getMemOffer")
 	if getOffer == nil {
 		return
